@@ -156,6 +156,7 @@ type conv struct {
 	values  map[llvm.Value]*IRValue
 	instrs  map[llvm.Value]*Instr
 	blockNm map[llvm.BasicBlock]string
+	gnames  map[llvm.Value]string
 	mod     *Module
 	nid     int
 }
@@ -185,13 +186,22 @@ var linkNames = map[llvm.Linkage]string{llvm.ExternalLinkage: "external", llvm.L
 func Convert(m llvm.Module, name string, withText bool) *Module {
 	dl := m.DataLayout()
 	c := &conv{td: llvm.NewTargetData(dl), types: map[llvm.Type]*Type{}, values: map[llvm.Value]*IRValue{}, instrs: map[llvm.Value]*Instr{},
-		blockNm: map[llvm.BasicBlock]string{}, mod: &Module{Name: name, Funcs: map[string]*Func{}, Globals: map[string]*Global{}}}
+		blockNm: map[llvm.BasicBlock]string{}, gnames: map[llvm.Value]string{}, mod: &Module{Name: name, Funcs: map[string]*Func{}, Globals: map[string]*Global{}}}
 	defer c.td.Dispose()
 	if withText {
 		c.mod.Text = m.String()
 	}
+	anon := 0
 	for g := m.FirstGlobal(); !g.IsNil(); g = llvm.NextGlobal(g) {
-		gl := &Global{Name: g.Name(), IsConst: g.IsGlobalConstant(), IsDecl: g.IsDeclaration(), Linkage: linkNames[g.Linkage()], Module: name}
+		if g.Name() == "" {
+			c.gnames[g] = fmt.Sprintf("$anon.%s.%d", name, anon)
+			anon++
+		} else {
+			c.gnames[g] = g.Name()
+		}
+	}
+	for g := m.FirstGlobal(); !g.IsNil(); g = llvm.NextGlobal(g) {
+		gl := &Global{Name: c.gnames[g], IsConst: g.IsGlobalConstant(), IsDecl: g.IsDeclaration(), Linkage: linkNames[g.Linkage()], Module: name}
 		gl.Ty = c.typ(g.GlobalValueType())
 		if !gl.IsDecl {
 			gl.Init = c.val(g.Initializer())
@@ -323,6 +333,9 @@ func (c *conv) val(v llvm.Value) *IRValue {
 		r.Kind, r.Name = VFunc, v.Name()
 	case !v.IsAGlobalVariable().IsNil():
 		r.Kind, r.Name = VGlobal, v.Name()
+		if n, ok := c.gnames[v]; ok {
+			r.Name = n
+		}
 	case !v.IsAGlobalAlias().IsNil():
 		r.Kind, r.Name = VGlobal, v.Name()
 	case !v.IsAConstantInt().IsNil():
